@@ -1,7 +1,7 @@
 (* Correspondence glue for C09: what a case is and when model and implementation agree on it. *)
 From Coq Require Import String Ascii List Bool NArith.
 Import ListNotations.
-Require Import Verif.Base.Harness Verif.Codec.JsonClean Verif.Codec.Dispatch Verif.Codec.PostProcess Verif.Codec.FileWrite Verif.Codec.StripCtx.
+Require Import Verif.Base.Harness Verif.Codec.JsonClean Verif.Codec.Dispatch Verif.Codec.PostProcess Verif.Codec.FileWrite Verif.Codec.StripCtx Verif.Codec.EncState.
 
 Definition B (s:string) : bytes := list_ascii_of_string s.
 Definition Ch (n:N) : ascii := ascii_of_N n.
@@ -17,6 +17,10 @@ Inductive c09_case :=
 | CFile (writer:string) (old:option string) (enc after:string)   (* file writer onto a path holding `old`: content after *)
 | CCli (json compact:bool) (v out:gval)       (* `sysl pb --mode M [--compact]`: the Go value tree of the compiled module
                                                  (as reflection shows it) and of what the binary emitted, decoded *)
+| CEnc (tbl:list (nat * enc * octets)) (evs:list ev) (obs:list (nat * octets))
+                                              (* encoder calls through writers that block, under a schedule of calls and
+                                                 partial reads: tbl = each model's encoding (taken alone), obs = what the
+                                                 reader behind each writer received in the end *)
 | CPost (cn:positive) (m:pmodule) (out:option pmodule).  (* compile of an import of x.pb holding m: the applications that
                                                  come out (None: the compile panicked); cn = the collector endpoint's name *)
 
@@ -29,7 +33,8 @@ Record source := {
   src_sites : list (string * list string);      (* calls of removeSourceContext in protobufCmd.Execute with their guards *)
   src_rule : rule;                              (* the walk of removeSourceContextImpl *)
   src_schema : schema_t;                        (* the structs of sysl.pb.go *)
-  src_oneofs : oneofs_t
+  src_oneofs : oneofs_t;
+  src_encs : enc_rule                           (* where the bytes each encoder hands to Write live *)
 }.
 
 Definition c09_ok (s:source) (c:c09_case) : bool :=
@@ -60,5 +65,6 @@ Definition c09_ok (s:source) (c:c09_case) : bool :=
   | CCli json compact v out =>
       conf (src_schema s) (src_oneofs s) (TPtr "Module"%string) v && conf (src_schema s) (src_oneofs s) (TPtr "Module"%string) out &&
       gval_eqb (cli_model (src_sites s) (src_rule s) json compact v) out
+  | CEnc tbl evs obs => enc_case_ok (src_encs s) tbl evs obs
   | CPost cn m out => option_eqb pmodule_eqb (post cn m) out
   end.
